@@ -139,6 +139,16 @@ func scenario(t *testing.T, name, role string) {
 				at(&wg, d, func() { inbound(r, &pseq, &pmu, ans, []int{69}) })
 				at(&wg, d+time.Millisecond, func() { _ = r.S.IsLogged() })
 			}
+		case "stop_vs_logout_answer": // Stop() while the peer's Logout (crossing ours) is dispatched: event callbacks fire while Stop re-registers its own
+			logon()
+			r.S.OnChangeState(utils.EventLogout, func() bool { return true })
+			r.H.HandleOutgoing("5", func(simplefixgo.SendingMessage) bool { // the application's own (slow) handler of outgoing Logouts
+				at(&wg, 0, func() { inbound(r, &pseq, &pmu, "logout", nil) })
+				time.Sleep(20 * time.Millisecond)
+				return true
+			})
+			at(&wg, T/2, func() { _ = r.S.Stop() })
+			at(&wg, T/2+20*time.Millisecond, func() { r.S.OnChangeState(utils.EventLogout, func() bool { return true }) })
 		default:
 			t.Fatalf("DRIVER-ERROR unknown scenario %s", name)
 		}
